@@ -397,7 +397,8 @@ class CookieJar(AbstractCookieJar):
                 self._expire_cookie(max_age_expiration, domain, path, name)
 
             elif expires := cookie["expires"]:
-                if expire_time := self._parse_date(expires):
+                # (0 is a date too: the epoch, the usual way to delete a cookie)
+                if (expire_time := self._parse_date(expires)) is not None:
                     self._expire_cookie(expire_time, domain, path, name)
                 else:
                     cookie["expires"] = ""
